@@ -188,6 +188,10 @@ def request_pool():
         ({"": H + "@constexpr\ndef table():\n    return [10 * (k + 1) for k in range(7)]\nlevels = table()\nfor v in levels:\n    db.Setting = v\nwhile True:\n    db.On = levels[d0.Setting]\n    yield_()\n"}, {}),
         ({"": H + "@constexpr\ndef table():\n    return [3, 1, 4, 1, 5]\nlevels = table()\nwhile True:\n    db.On = levels[d0.Setting]\n    for v in levels:\n        db.Setting = v\n    yield_()\n"}, {"compact": True}),
         ({"": H + "levels = [9, 8, 7, 6, 5, 4, 3]\nwhile True:\n    db.On = levels[d0.Setting]\n    for v in levels:\n        db.Setting = v\n    yield_()\n"}, {}),
+        # requests without an options argument (the API's default), with and without directives in the text
+        ({"": H + "x = d0.Setting\nwhile x > 1:\n    x = x - 1\ndb.Setting = LogicType.On\n"}, None),
+        ({"": "# pytrapic: compact, remove-labels, no-append-version\n" + H + "x = d0.Setting\nwhile x > 1:\n    x = x - 1\ndb.Setting = LogicType.On\n"}, None),
+        ({"": "# pytrapic: no-inline-functions\n" + H + "def f(a):\n    return a + 1\ndb.Setting = f(d0.Setting)\n"}, None),
         ({"": H + "db.Setting = unknown_thing\n"}, {}),
         ({"": "def broken(:\n"}, {}),
         ({"": main2, "tank": lib1, "pump": lib2}, {}),
@@ -205,7 +209,7 @@ from stationeers_pytrapic.compiler import compile_code, CompileOptions
 reqs = json.loads(sys.stdin.read())
 out = []
 for src, opts in reqs:
-    r = compile_code(src, CompileOptions(**opts))
+    r = compile_code(src, CompileOptions(**opts)) if opts is not None else compile_code(src)
     out.append({k: v for k, v in r.items()} if "code" in r else {"error": r["error"].get("description")})
 print(json.dumps(out))
 """
@@ -277,10 +281,10 @@ def history_check(rep, tier, seed):
         for h in hists:
             for idx in h:
                 src, opts = pool[idx]
-                o = CompileOptions(**opts)
+                o = CompileOptions(**opts) if opts is not None else None
                 o_before = copy.deepcopy(o)
                 src_before = copy.deepcopy(src)
-                r = norm(compile_code(src, o))
+                r = norm(compile_code(src, o) if o is not None else compile_code(src))
                 if inconclusive(r) or inconclusive(ref[idx]):
                     continue
                 if r != ref[idx]:
